@@ -24,7 +24,7 @@ from . import est_common as EC
 PROP = "C18"
 LEVEL = "proof"
 LEAN = {"module": "Pygom.Props.C18",
-        "required": ["Pygom.C18.box_bounds_rows", "Pygom.C18.fit_contract_partial", "Pygom.C18.fit_at_truth_partial",
+        "required": ["Pygom.C18.box_bounds_rows", "Pygom.C18.fit_in_box_partial", "Pygom.C18.fit_contract_partial", "Pygom.C18.fit_at_truth_partial",
                      "Pygom.C18.fit_at_truth_of_zero_residual", "Pygom.C18.box_bounds_C_counterexample", "Pygom.C18.grad_zero_at_truth"]}
 BUDGET = {"quick": {"fits": 130, "random": 20, "malformed": 14},
           "thorough": {"fits": 3000, "random": 400, "malformed": 120}}
@@ -34,8 +34,8 @@ RULE = ("real fit(x, lb, ub) on pygom.common_models SIR_norm / SIR / SIS / SEIR 
         "on its boundary, and at the generating parameters; also lb=None / ub=None and mismatched lengths.  A case is "
         "non-trivial when the box has >= 2 coordinates with lb != ub-pattern distinguishable from a C-order packing "
         "(i.e. n >= 2) or the start is the truth.")
-ASSUMPTIONS = ["scipy L-BFGS-B returns a point of the box it was given whose objective is not above the start's (BoxDescent) - "
-               "observed on every call",
+ASSUMPTIONS = ["scipy L-BFGS-B returns a point of the box it was given (always) whose objective is not above the start's WHEN the jac it "
+               "is handed is the gradient of fun (BoxDescent; gradient consistency is property C07) - observed on every call",
                "scipy L-BFGS-B returns its start when every component of the gradient it is handed there is <= pgtol = 1e-5 "
                "(StopsAtStationary) - observed on every such start",
                "the recomputation oracle uses pygom's own integrator and loss kernel through a freshly built loss object "
@@ -296,7 +296,9 @@ def run_case(case):
     inb = all(l <= v <= u for l, v, u in zip(lb, s["res_x"], ub))
     if not inb:
         tags.append("ASSUMPTION-FAILED:optimiser left its bounds")
-    if s["f0"] is not None and not (s["res_fun"] <= s["f0"] + 1e-9 * abs(s["f0"])):
+    if math.isnan(s["res_fun"]):
+        tags.append("optimiser-reports-fun-nan")
+    elif s["f0"] is not None and not math.isnan(s["f0"]) and not (s["res_fun"] <= s["f0"] + 1e-9 * abs(s["f0"])):
         tags.append("ASSUMPTION-FAILED:optimiser objective above start")
     if s["g0"] is not None and all(abs(v) <= 1e-5 for v in s["g0"]):
         tags.append("gradient-below-pgtol-at-start")
@@ -304,7 +306,12 @@ def run_case(case):
             tags.append("ASSUMPTION-FAILED:optimiser moved from a stationary start")
 
     # ---------------- direct oracle (no Lean) ---------------------------------------------------------------
-    where = "%s:%s" % (sig_tail, case["start"])
+    plist_model = case["model"]["params"] if isinstance(case["model"], dict) else EC.CATALOGUE[case["model"]]["params"]
+    st_model = states_of(case)
+    permuted = (case["target"] != [q for q in plist_model if q in case["target"]]) or (case["obs"] != [q for q in st_model if q in case["obs"]])
+    if permuted:
+        tags.append("target-or-observed-order-permuted")
+    where = "%s:%s%s" % (sig_tail, case["start"], ":permuted-order" if permuted else "")
     if len(out) != n or not all(l <= v <= u for l, v, u in zip(lb, out, ub)):
         viol.append({"what": "fit returned a point outside [lb, ub]", "signature": "fit:outside-box:" + where,
                      "detail": "x=%s lb=%s ub=%s result=%s ; bounds given to the optimiser %s" % (case["x"], lb, ub, out, np.asarray(s["bounds"]).tolist())})
